@@ -40,6 +40,16 @@ GPage1(p, d, n) ==
   /\ Log([op |-> "page1", prefix |-> p, delim |-> d, count |-> n,
           items |-> PageOp(ListOp(store, p, d), <<>>, n).page])
 
+\* a paginated listing with a deletion between its first and its second page: the rest of the listing is the
+\* rest of the NEW store from the token on (the token names a position, not an object that must still exist)
+GScanDel(p, d, n, k) ==
+  LET pg == PageOp(ListOp(store, p, d), <<>>, n)
+      after == Without(store, k)
+  IN /\ pg.next # <<>> /\ k \in DOMAIN store
+     /\ Delete(k)
+     /\ Log([op |-> "scandel", prefix |-> p, delim |-> d, count |-> n, items |-> pg.page, next |-> pg.next, key |-> k,
+             rest |-> ScanFrom(ListOp(after, p, d), pg.next, n)])
+
 \* RandomElement keeps the branching of observation steps low so that random
 \* walks mix mutations and observations evenly.
 R(S) == RandomElement(S)
@@ -49,6 +59,12 @@ GStep == \/ \E k \in Keys, e \in BOOLEAN : GPut(k, R(Vals), e)
          \/ GHas(R(Keys))
          \/ \E i \in 1..10 : GScan(R(LPrefixes), R(BOOLEAN), R(Counts))
          \/ \E i \in 1..4 : GPage1(R(LPrefixes), R(BOOLEAN), R(Counts))
+         \* the key the token names (no delimiter: the token is a key), or any other key, goes between the pages
+         \/ \E i \in 1..3 : \E p \in {R(LPrefixes)}, n \in {R(Counts)} :
+               LET nx == PageOp(ListOp(store, p, FALSE), <<>>, n).next
+               IN nx # <<>> /\ GScanDel(p, FALSE, n, nx)
+         \/ \E p \in {R(LPrefixes)}, d \in {R(BOOLEAN)}, n \in {R(Counts)} :
+               store # << >> /\ \E k \in {R(DOMAIN store)} : GScanDel(p, d, n, k)
 
 GNext == /\ phase = "run"
          /\ IF Len(hist) < MaxLen
